@@ -125,7 +125,11 @@ def repaired_J(obj, kind, x):
     saved = I._integrator
     try:
         I._integrator = integ
-        r = np.asarray(obj._functionImplementation(float(x)), dtype=float).ravel()
+        # the SAME call path as the value being judged (obj(x) -> evaluate -> _evaluateDirectly ->
+        # _functionImplementation): anything between __call__ and the dispatcher stays in play
+        with warnings.catch_warnings():
+            warnings.simplefilter("ignore")
+            r = np.asarray(obj(float(x), bUseInterpolatedValues=False), dtype=float).ravel()
     finally:
         I._integrator = saved
     return float(r[0]), float(r[1])
@@ -728,10 +732,11 @@ def direct(ctx, rng, D):
     # the table and the kinks), plus the exact special values
     nneg, npos = ctx.n(60, 1500), ctx.n(12, 300)
     specials = [-0.0, 1e-300, -1e-300, 1e-100, -1e-100, -1e-9, -1e-6, -1e-3, -0.5,
-                -20.5, -39.0, -41.0, -60.0, -100.0]
+                -20.5, -39.0, -41.0, -60.0, -100.0, -170.0, -1000.0]
     for tag, (kind, obj) in objs.items():
         xs = [-10.0 ** rng.uniform(-12.0, math.log10(9.8)) for _ in range(nneg // 2)] + \
              [-rng.uniform(9.9, 100.0) for _ in range(nneg - nneg // 2)] + specials + \
+             [-10.0 ** rng.uniform(2.0, 4.0) for _ in range(ctx.n(2, 30))] + \
              [rng.uniform(0, 1200.0) for _ in range(npos)] + \
              [10.0 ** rng.uniform(-12.0, 0.0) for _ in range(npos // 2)] + [0.0]
         vals = {}
@@ -740,7 +745,8 @@ def direct(ctx, rng, D):
             want = ref_J(kind, x)
             vals[x] = got
             ctx.count("direct_integral_" + tag, bucket=(
-                "x>=0" if x >= 0 else "x<-4pi^2" if x < -39.48 else "x<-pi^2" if x < -9.87
+                "x>=0" if x >= 0 else "x<-100" if x < -100 else "x<-4pi^2" if x < -39.48
+                else "x<-pi^2" if x < -9.87
                 else "-pi^2<x<-0.01" if x < -0.01 else "-0.01<x<0"))
             classify_integral(ctx, tag, kind, obj, x, got, want, 1e-7, "direct")
         # array arguments (the loop of the dispatcher) give the scalar results, element by element
@@ -820,7 +826,9 @@ def direct(ctx, rng, D):
                         tag, i, x, got[0], got[1], want[0], want[1], cur[0], cur[1]),
                     dict(kind="table_row", cls=tag, row=i, x=x, table=got, integral=want,
                          direct=cur), key="table-row:%s" % tag)
-    # (iv) spline between the nodes and first derivative (central difference of the reference)
+    # (iv) spline: value, first and second derivative (central differences of the reference) at
+    #      nodes, midpoints and off-centre points
+    margin = {}
     for tag, (kind, obj) in objs.items():
         T = tabs[tag]
         xs = np.asarray(T._interpolationPoints, dtype=float)
@@ -839,19 +847,34 @@ def direct(ctx, rng, D):
                            "calls %r" % (tag, pick, arr.tolist(), [o.tolist() for o in one]),
                            dict(kind="table_array", cls=tag, xs=pick, got=arr.tolist()),
                            key="array-argument:table-" + tag)
-        cand = [0.5 * (xs[i] + xs[i + 1]) for i in
-                sorted(rng.sample(range(0, i_zero), min(i_zero, ctx.n(16, 196))) +
-                       rng.sample(range(i_zero, i_100), min(i_100 - i_zero, ctx.n(24, 300))) +
-                       rng.sample(range(i_100, len(xs) - 1), ctx.n(8, 300)))]
+        # cells: a seeded sample plus ALWAYS the first and last 8 (spline end conditions) and the
+        # two cells around x = 0; in every cell the node, the midpoint and one off-centre point
+        # (a cubic's derivative error is smallest at the midpoint)
+        cells = sorted(set(
+            rng.sample(range(0, i_zero), min(i_zero, ctx.n(16, 196))) +
+            rng.sample(range(i_zero, i_100), min(i_100 - i_zero, ctx.n(24, 300))) +
+            rng.sample(range(i_100, len(xs) - 1), ctx.n(8, 300)) +
+            list(range(0, 8)) + list(range(len(xs) - 9, len(xs) - 1)) + [i_zero - 1, i_zero]))
+        cand = [0.0]
+        for i in cells:
+            for fr in (0.0, rng.choice([0.1, 0.25, 0.9]), 0.5):
+                cand.append(float(xs[i] + fr * (xs[i + 1] - xs[i])))
         h = 1e-3
         for x in cand:
             x = float(x)
-            near0 = abs(x) < 1.0
+            # ACCURACY LIMITS OF THE SHIPPED TABLES (measured by a scan of every cell with x < 102
+            # at 5 positions, unchanged files; tolerance = ~1.7 x the maximum):  a cubic spline
+            # cannot follow the x^{3/2} non-analyticity at 0 nor the one of Jf at -pi^2
+            #   |x| < 0.25        value 1.0e-3   derivative 7.1e-2 (at x = 0: 0.7514 vs pi^2/12)
+            #   0.25 <= |x| < 1   value 2.8e-5   derivative 1.6e-3   2nd derivative 5e-2
+            #   |x + pi^2| < 1    value 1.0e-3   derivative 3.2e-2                     (Jf only)
+            #   elsewhere         value 7e-8     derivative 4.3e-6   2nd derivative 4e-4
+            near0 = abs(x) < 0.25
+            mid0 = 0.25 <= abs(x) < 1.0
             nearpi = tag == "Jf" and abs(x + math.pi ** 2) < 1.0
-            # a cubic spline cannot follow the x^{3/2} non-analyticity at 0 nor the one of Jf at
-            # -pi^2: measured 1e-3 / 3e-3 in the value and 1e-2 / 4e-2 in the derivative there
-            tolv = 2e-3 if near0 else 6e-3 if nearpi else 1e-6
-            told = 2e-2 if near0 else 8e-2 if nearpi else 2e-5
+            tolv = 2e-3 if near0 else 1e-4 if mid0 else 6e-3 if nearpi else 1e-6
+            told = 0.12 if near0 else 5e-3 if mid0 else 8e-2 if nearpi else 2e-5
+            told2 = None if (near0 or nearpi) else 0.15 if mid0 else 2e-3
             # this check is about the INTERPOLATION: errors of the nodes themselves (reported by
             # (iii)) are allowed to propagate the way a cubic spline propagates them: a node
             # error e at distance k nodes moves the value by <= ~e (2 - sqrt 3)^k and the
@@ -868,29 +891,48 @@ def direct(ctx, rng, D):
                     nerr = max(nerr, e * 0.3 ** max(0.0, abs(x - xs[j]) / grid - 1.0))
             tolv += 2 * nerr
             told += 3 * nerr / grid
+            if told2 is not None:
+                told2 += 12 * nerr / grid ** 2
             want = ref_J(kind, x)
             with warnings.catch_warnings():
                 warnings.simplefilter("ignore")
                 got = [float(v) for v in np.asarray(T(x), dtype=float).ravel()]
                 dgot = [float(v) for v in np.asarray(T.derivative(x, 1, True),
                                                      dtype=float).ravel()]
+                d2got = [float(v) for v in np.asarray(T.derivative(x, 2, True),
+                                                      dtype=float).ravel()]
             wp, wm = ref_J(kind, x + h), ref_J(kind, x - h)
             dwant = [(wp[0] - wm[0]) / (2 * h), (wp[1] - wm[1]) / (2 * h)]
-            ctx.count("spline_midpoint_" + tag, bucket="|x|<1" if near0 else
-                      "x<0" if x < 0 else "x>0")
+            d2want = [(wp[0] - 2 * want[0] + wm[0]) / h ** 2,
+                      (wp[1] - 2 * want[1] + wm[1]) / h ** 2]
+            if x == 0.0:
+                # one-sided at the branch point: the imaginary part starts there
+                dwant[1] = d2want[1] = 0.0
+                told2 = None
+            ctx.count("spline_point_" + tag, bucket="|x|<0.25" if near0 else
+                      "0.25<=|x|<1" if mid0 else "x<0" if x < 0 else "x>0")
             for part in (0, 1):
-                bad_v = abs(got[part] - want[part]) > tolv * max(1.0, abs(want[part]))
-                bad_d = abs(dgot[part] - dwant[part]) > told * max(1.0, abs(dwant[part]))
-                if not (bad_v or bad_d):
+                rv = abs(got[part] - want[part]) / (tolv * max(1.0, abs(want[part])))
+                rd = abs(dgot[part] - dwant[part]) / (told * max(1.0, abs(dwant[part])))
+                r2 = 0.0 if told2 is None else \
+                    abs(d2got[part] - d2want[part]) / (told2 * max(1.0, abs(d2want[part])))
+                margin["spline " + ("near 0" if near0 or mid0 else "near -pi^2" if nearpi
+                                    else "generic")] = max(
+                    margin.get("spline " + ("near 0" if near0 or mid0 else "near -pi^2"
+                                            if nearpi else "generic"), 0.0), rv, rd, r2)
+                if max(rv, rd, r2) <= 1.0:
                     continue
                 ctx.fail_input(
                     "default %s table at x = %r (%s part): value %r vs integral %r, derivative "
-                    "%r vs %r" % (tag, x, "real" if part == 0 else "imag", got[part],
-                                  want[part], dgot[part], dwant[part]),
+                    "%r vs %r, second derivative %r vs %r (error / tolerance %.2f, %.2f, %.2f)" % (
+                        tag, x, "real" if part == 0 else "imag", got[part], want[part],
+                        dgot[part], dwant[part], d2got[part], d2want[part], rv, rd, r2),
                     dict(kind="spline", cls=tag, x=x, part=part, got=float(got[part]),
-                         want=want[part], dgot=float(dgot[part]), dwant=dwant[part]),
+                         want=want[part], dgot=float(dgot[part]), dwant=dwant[part],
+                         d2got=float(d2got[part]), d2want=d2want[part]),
                     key="spline:%s" % tag)
                 break
+    ctx.cov["margins"] = {k: round(v, 3) for k, v in margin.items()}
     # (v) one-loop thermal potential on the real integrals: Stefan-Boltzmann, heavy-mass
     #     suppression, continuity in the masses
     direct_pot = make_pot(Integrals(), EImaginaryOption.PRINCIPAL_PART)
@@ -962,7 +1004,7 @@ def direct(ctx, rng, D):
     # heavy masses: |J(x)| <= 1.3 sqrt(pi/2) x^{3/4} e^{-sqrt x} (leading asymptotics) for x >= 50
     for pot, label, xmax in ((direct_pot, "direct", 3000.0), (table_pot, "tables", 999.0)):
         for _ in range(ctx.n(10, 80)):
-            x = rng.uniform(50.0, xmax)
+            x = 10.0 ** rng.uniform(math.log10(50.0), math.log10(xmax))
             T = rng.uniform(1.0, 200.0)
             nb, nf = rng.randint(1, 20), rng.randint(1, 40)
             bos = (np.array([x * T * T]), np.array([float(nb)]), np.full(1, 1.5), np.full(1, 1.0))
@@ -1178,6 +1220,86 @@ def shipped_path(ctx, rng, D, objs):
             warnings.simplefilter("ignore")
             edge[tag] = ([float(v) for v in np.asarray(T(-20.0), dtype=float).ravel()],
                          [float(v) for v in np.asarray(T(1000.0), dtype=float).ravel()])
+    # INSIDE the table the potential's own copy (rebuilt by setExtrapolationType) must be the global
+    # tables bit for bit: nodes, values, first and second derivative -- every in-range check above
+    # ran on the global object, this ties them to the object production code evaluates
+    table_pot = make_pot(D, EImaginaryOption.PRINCIPAL_PART)
+    for tag, G in tabs.items():
+        C = J[tag]
+        gx = np.asarray(G._interpolationPoints, dtype=float)
+        same_nodes = np.array_equal(gx, np.asarray(C._interpolationPoints, dtype=float)) and \
+            np.array_equal(np.asarray(G._interpolationValues, dtype=float),
+                           np.asarray(C._interpolationValues, dtype=float))
+        pts = []
+        for i in list(range(0, 12)) + list(range(len(gx) - 13, len(gx) - 1)):
+            pts += [float(gx[i] + fr * (gx[i + 1] - gx[i])) for fr in (0.1, 0.5, 0.9)]
+        pts += [float(gx[i]) for i in rng.sample(range(1, len(gx) - 1), 20)]
+        pts += [rng.uniform(-19.99, 999.9) for _ in range(ctx.n(40, 400))]
+        bad = None if same_nodes else ("nodes", None, None, None)
+        with warnings.catch_warnings():
+            warnings.simplefilter("ignore")
+            for x in pts:
+                ctx.count("shipped_copy_vs_global_" + tag)
+                for what, fg, fc in (
+                        ("value", lambda: G(x), lambda: C(x)),
+                        ("derivative", lambda: G.derivative(x, 1, True),
+                         lambda: C.derivative(x, 1, True)),
+                        ("second derivative", lambda: G.derivative(x, 2, True),
+                         lambda: C.derivative(x, 2, True))):
+                    a = np.asarray(fg(), dtype=float).ravel()
+                    b = np.asarray(fc(), dtype=float).ravel()
+                    if a.shape != b.shape or not np.array_equal(a, b):
+                        bad = bad or (what, x, a.tolist(), b.tolist())
+        if bad:
+            ctx.fail_input(
+                "shipped path: the potential's own %s table differs from the global table INSIDE "
+                "the range: %s at x = %r: global %r, copy %r" % (tag, bad[0], bad[1], bad[2],
+                                                                  bad[3]),
+                dict(kind="shipped_copy", cls=tag, what=bad[0], x=bad[1], glob=bad[2],
+                     copy=bad[3]), key="shipped-path:copy-differs-in-range")
+        # arrays mixing in-range and out-of-range arguments, 1-D and 2-D (the production call:
+        # light and heavy species, array of temperatures) answer element by element
+        mix = [rng.uniform(-19.0, 900.0), 10.0 ** rng.uniform(3.1, 5.0), rng.uniform(0.0, 50.0),
+               -rng.uniform(21.0, 60.0), rng.uniform(100.0, 999.0), 1000.0 + rng.uniform(0, 1.0)]
+        with warnings.catch_warnings():
+            warnings.simplefilter("ignore")
+            one = [np.asarray(C(x), dtype=float).ravel() for x in mix]
+            for shape in ((6,), (2, 3), (3, 2)):
+                arr = np.asarray(C(np.array(mix).reshape(shape)), dtype=float)
+                ctx.count("shipped_mixed_array_" + tag, bucket=str(shape))
+                if arr.shape != shape + (2,) or any(
+                        tuple(arr.reshape(-1, 2)[j]) != tuple(one[j]) for j in range(6)):
+                    ctx.fail_input("shipped path: %s called with the %r array %r gives %r, the "
+                                   "scalar calls %r" % (tag, shape, mix, arr.tolist(),
+                                                        [o.tolist() for o in one]),
+                                   dict(kind="shipped_array", cls=tag, xs=mix, shape=list(shape),
+                                        got=arr.tolist()), key="array-argument:shipped-" + tag)
+                    break
+            # derivative beyond the upper end: the constant continuation has slope 0
+            dup = np.asarray(C.derivative(10.0 ** rng.uniform(3.1, 5.0), 1, True),
+                             dtype=float).ravel()
+        ctx.count("shipped_derivative_beyond_" + tag)
+        if not np.all(np.abs(dup) <= 1e-9):
+            ctx.fail_input("shipped path: d%s/dx beyond the upper end of the table is %r" % (
+                tag, dup.tolist()), dict(kind="shipped_deriv", cls=tag, got=dup.tolist()),
+                key="shipped-path:derivative-beyond")
+    # in-range spectra through the shipped potential equal the same through the global tables
+    for _ in range(ctx.n(8, 60)):
+        T = rng.uniform(0.5, 300.0)
+        kb, kf = rng.randint(1, 5), rng.randint(1, 3)
+        xb = [rng.choice([0.0, rng.uniform(0, 60.0), rng.uniform(-19.9, 0.0)]) for _ in range(kb)]
+        xf = [rng.choice([0.0, rng.uniform(0, 900.0)]) for _ in range(kf)]
+        dofb = [float(rng.randint(1, 12)) for _ in range(kb)]
+        doff = [float(rng.randint(1, 40)) for _ in range(kf)]
+        args = (np.array(xb) * T * T, dofb, np.array(xf) * T * T, doff, T)
+        a = float(make_plain_call(pot, *args))
+        b = float(make_plain_call(table_pot, *args))
+        ctx.count("shipped_pot_vs_global_tables")
+        if a != b:
+            ctx.fail_input("shipped path: V_T = %r for m^2/T^2 = %r / %r, T = %r, but the global "
+                           "tables give %r" % (a, xb, xf, T, b),
+                           dict(kind="shipped_pot", xb=xb, xf=xf, dofb=dofb, doff=doff, T=T,
+                                got=a, want=b), key="shipped-path:copy-differs-in-range")
     # heavy species must stay suppressed beyond the upper end (x up to 1e6)
     for _ in range(ctx.n(16, 120)):
         x = 10.0 ** rng.uniform(3.0, 6.0)
